@@ -38,7 +38,7 @@ def plan(tier, seed):
 def rand_cfg(r):
     inc = {c: r.random() < 0.7 for c in CATS}
     return {"include": inc, "use_color": r.random() < 0.5, "color_words": r.random() < 0.3,
-            "use_git": r.random() < 0.6, "use_diff": r.random() < 0.6, "path_variant": r.choice(["full", "full", "diffonly", "bare", "spaced"])}
+            "use_git": r.random() < 0.6, "use_diff": r.random() < 0.6, "path_variant": r.choice(["full", "full", "diffonly", "bare", "spaced", "diffnodiff3"])}
 
 
 _how = [0]
@@ -68,7 +68,7 @@ def renderer_of(cfg):
     v = cfg["path_variant"]
     if cfg["use_git"] and v in ("full", "spaced"):
         return "git"
-    if cfg["use_diff"] and v in ("full", "diffonly", "spaced"):
+    if cfg["use_diff"] and v in ("full", "diffonly", "spaced", "diffnodiff3"):
         return "diff"
     return "difflib"
 
